@@ -185,20 +185,23 @@ def _c18_fitter_split(case, observed):
 
 @predicate("replace-range-slice-closes-isolating-type")
 def _c18_range_closing(case, observed):
-    """C18: replace_range with a slice that is open at its start through a node of the isolating node's own type and
-    CLOSED at its end: the slice carries that node's closing token; fitted onto the document's node it closes it and
-    what follows the range needs a new one."""
+    """C18: replace_range with a slice that is open at its start through a node of the isolating node's own type which
+    is CLOSED inside the slice (it is not also the open end of the slice): the slice carries that node's closing token;
+    fitted onto the document's node it closes it and what follows the range needs a new one."""
     op = case.get("op") or {}
-    if op.get("op") != "replace_range" or op["slice"].get("openEnd", 0) != 0:
+    if op.get("op") != "replace_range":
         return False
     c, T, o, cl = _c18_ctx(case)
     iso_type = T[o][1]
     cur = op["slice"].get("content") or []
-    for _ in range(op["slice"].get("openStart", 0)):
+    open_end = op["slice"].get("openEnd", 0)
+    on_end_spine = True  # is the start-spine node of this level also the (still open) end-spine node?
+    for level in range(op["slice"].get("openStart", 0)):
         if not cur:
             break
-        if cur[0]["type"] == iso_type:
-            return True
+        on_end_spine = on_end_spine and len(cur) == 1 and open_end > level
+        if cur[0]["type"] == iso_type and not on_end_spine:
+            return True  # opened at the slice's start, CLOSED inside the slice
         cur = cur[0].get("content") or []
     return False
 
@@ -411,7 +414,10 @@ def _c13_nested_clear(case, observed):
 
     c = adapters.Ctx(case["schema"], case["spec"]) if case.get("spec") else adapters.ctx(case["schema"])
     model = c.model
-    ref = rp.RefDoc(model, case["doc"])
+    doc = case["doc"]
+    if op.get("after"):  # second operation of a history: positions refer to the document with its first block doubled
+        doc = {**doc, "content": [doc["content"][0], *doc["content"]]}
+    ref = rp.RefDoc(model, doc)
     for n in ref.all_nodes():
         if n.parent is None or n.is_text or n.is_leaf or not n.tm.is_inline:
             continue
